@@ -42,6 +42,8 @@ func (e c06Ev) desc() string {
 		return fmt.Sprintf("wait:%d", e.Ms)
 	case "tick":
 		return "tick"
+	case "stale":
+		return fmt.Sprintf("stale:%d", e.Ms)
 	case "tickx":
 		return fmt.Sprintf("tickx:%d", e.ID)
 	case "tickack":
@@ -73,7 +75,7 @@ func parseC06Ev(s string) c06Ev {
 		if len(f) > 5 {
 			e.Mid = atoi(f[5])
 		}
-	case "age", "wait":
+	case "age", "wait", "stale":
 		e.Ms = atoi(f[1])
 	case "tick":
 	case "piggy":
@@ -94,6 +96,9 @@ func (e c06Ev) item(ems, rs []string) string {
 			dl = fmt.Sprintf("(Some %d)", e.DL)
 		}
 		return fmt.Sprintf("HM %d %s %s %d [%s] [%s]", e.ID, coqBytes(e.Tok), dl, e.Mid, strings.Join(ems, "; "), strings.Join(rs, "; "))
+	}
+	if e.Kind == "stale" {
+		return fmt.Sprintf("HS %d [%s] [%s]", e.Ms, strings.Join(ems, "; "), strings.Join(rs, "; "))
 	}
 	return fmt.Sprintf("HE %s [%s] [%s]", e.coq(), strings.Join(ems, "; "), strings.Join(rs, "; "))
 }
@@ -404,6 +409,9 @@ func runC06History(evs []c06Ev, ackMs, maxRt, nstart int) string {
 			time.Sleep(time.Duration(e.Ms) * time.Millisecond)
 		case "tick":
 			mc.cc.CheckExpirations(time.Now())
+		case "stale":
+			// a housekeeping tick that carries the time at which it started, Ms before the present
+			mc.cc.CheckExpirations(time.Now().Add(-time.Duration(e.Ms) * time.Millisecond))
 		case "ack", "rst", "piggy":
 			r := reqs[e.ID]
 			if r != nil && r.first != nil {
@@ -805,11 +813,104 @@ func genC06MidHistory(rng *Rng) ([]c06Ev, int, int, int) {
 	return evs, ack, maxrt, nst
 }
 
+// canonC06Stale: housekeeping ticks whose timestamp lies before the present ("stale:ms" = CheckExpirations
+// with now = present - ms; Retx/ModelStale.v): the tick carries the time at which it STARTED, and a slow
+// tick (other connections served first, a blocking write, a late ticker) reaches a connection when that
+// time is old - older, possibly, than the first transmission of a request issued meanwhile. Such a tick
+// must not send a copy earlier than k x ACK_TIMEOUT after the first. Not shared with C12.
+func canonC06Stale() []c06Canon {
+	var out []c06Canon
+	add := func(evs []c06Ev, ack, maxrt, nst int) { out = append(out, c06Canon{evs, ack, maxrt, nst}) }
+	s := func(id int, tok ...byte) c06Ev { return c06Ev{Kind: "send", ID: id, Tok: tok} }
+	age := func(ms int) c06Ev { return c06Ev{Kind: "age", Ms: ms} }
+	stale := func(ms int) c06Ev { return c06Ev{Kind: "stale", Ms: ms} }
+	tick := c06Ev{Kind: "tick"}
+	k := func(kind string, id int) c06Ev { return c06Ev{Kind: kind, ID: id} }
+	piggy := func(id int) c06Ev { return c06Ev{Kind: "piggy", ID: id, Code: 69} }
+	// stamped before the first transmission (by less / by more than ACK_TIMEOUT), between the copies, and
+	// late but past a boundary (the copy is due also by the stale stamp)
+	add([]c06Ev{s(1, 0xe1), stale(500), stale(6000), age(2500), tick, stale(5000), age(2500), stale(2000), stale(500), piggy(1)}, 2000, 4, 1)
+	// two requests of different age under the same stale tick
+	add([]c06Ev{s(1, 0xe2), age(2500), s(2, 0xf2), stale(2500), stale(5000), tick, stale(7000), k("cancel", 1), stale(7000), k("cancel", 2)}, 2000, 4, 2)
+	// small ACK_TIMEOUT, every stale tick older than the request by several timeouts; exhaustion
+	add([]c06Ev{s(1, 0xe3), stale(3500), stale(1500), age(1500), stale(3000), tick, age(1000), stale(4000), tick, stale(9500), age(1000), tick, k("cancel", 1)}, 1000, 2, 1)
+	// the request was admitted (NSTART) while the tick was on its way
+	add([]c06Ev{s(1, 0xe4), s(2, 0xf4), age(2500), k("ack", 1), stale(2500), stale(4500), age(2500), tick, piggy(2), k("cancel", 1)}, 2000, 4, 1)
+	// MAX_RETRANSMIT 0 and 1
+	add([]c06Ev{s(1, 0xe5), stale(4500), k("cancel", 1)}, 2000, 0, 1)
+	add([]c06Ev{s(1, 0xe6), stale(4500), stale(2500), age(2500), stale(5000), tick, stale(8500), k("ack", 1), k("cancel", 1)}, 2000, 1, 1)
+	return out
+}
+
+// genC06StaleHistory draws one history with punctual and stale ticks (not shared with C12). No tick sees
+// a pending request within 400 ms of a k x ACK_TIMEOUT boundary (k = -6..6, by the stamp it carries).
+func genC06StaleHistory(rng *Rng) ([]c06Ev, int, int, int) {
+	ack := []int{1000, 2000}[rng.Intn(2)]
+	maxrt := []int{0, 1, 2, 4, 4}[rng.Intn(5)]
+	nst := []int{1, 1, 2}[rng.Intn(3)]
+	nreq := 1 + rng.Intn(2)
+	k := 5 + rng.Intn(9)
+	var evs []c06Ev
+	started := 0
+	now := 0
+	var sendTimes []int
+	okTime := func(t int) bool {
+		for _, st := range sendTimes {
+			el := t - st
+			for kk := -6; kk <= 6; kk++ {
+				if d := el - kk*ack; kk != 0 && d > -400 && d < 400 {
+					return false
+				}
+			}
+		}
+		return true
+	}
+	for len(evs) < k {
+		r := rng.Intn(100)
+		switch {
+		case started < nreq && (started == 0 || r < 15):
+			evs = append(evs, c06Ev{Kind: "send", ID: started + 1, Tok: []byte{byte(0xE0 + started), byte(rng.U64())}})
+			sendTimes = append(sendTimes, now)
+			started++
+		case r < 40:
+			ms := []int{500, ack + 500, ack - 500, 2*ack + 100, 700, 1500}[rng.Intn(6)]
+			if okTime(now + ms) {
+				now += ms
+				evs = append(evs, c06Ev{Kind: "age", Ms: ms})
+			}
+		case r < 50:
+			if okTime(now) {
+				evs = append(evs, c06Ev{Kind: "tick"})
+			}
+		case r < 85:
+			ms := []int{ack + 500, 3 * ack, 500, 2*ack + 700, 5*ack + 500, now + ack + 500}[rng.Intn(6)]
+			if okTime(now - ms) {
+				evs = append(evs, c06Ev{Kind: "stale", Ms: ms})
+			}
+		default:
+			id := 1 + rng.Intn(started)
+			switch rng.Intn(4) {
+			case 0:
+				evs = append(evs, c06Ev{Kind: "ack", ID: id})
+			case 1:
+				evs = append(evs, c06Ev{Kind: "piggy", ID: id, Code: 69})
+			case 2:
+				evs = append(evs, c06Ev{Kind: "rst", ID: id})
+			case 3:
+				evs = append(evs, c06Ev{Kind: "cancel", ID: id})
+			}
+			// a slot may have been freed now: a waiter's clock may start here
+			sendTimes = append(sendTimes, now)
+		}
+	}
+	return evs, ack, maxrt, nst
+}
+
 func runC06(a runArgs) error {
 	e := NewEmitter("C06", "Retx.Run")
 	e.Preamble = "From GoCoap Require Import Retx.Model Retx.Spec."
 	e.ShardSize = 100
-	e.Rule = "event histories on a real udp/client.Conn (in-memory session, virtual time by shifting the pending entries' stamps): 1-3 confirmable requests via Conn.Do (NSTART 1-2, ACK_TIMEOUT 1-2 s, MAX_RETRANSMIT 0-4, optional context deadline), housekeeping ticks at virtual times around every k x ACK_TIMEOUT boundary (never within 300 ms of one), and ACK / RST / piggybacked / separate responses / cancellation at every position; a second family with message IDs chosen by the application (the ID of an earlier request of the history, or a fresh one): collisions with a still unacknowledged request (the call is refused, the pending exchange goes on), re-use of an ID after the earlier exchange is over, NSTART 1-3. Distinct = distinct history; non-trivial = at least one re-send or one response/ack/reset/cancel event."
+	e.Rule = "event histories on a real udp/client.Conn (in-memory session, virtual time by shifting the pending entries' stamps): 1-3 confirmable requests via Conn.Do (NSTART 1-2, ACK_TIMEOUT 1-2 s, MAX_RETRANSMIT 0-4, optional context deadline), housekeeping ticks at virtual times around every k x ACK_TIMEOUT boundary (never within 300 ms of one), and ACK / RST / piggybacked / separate responses / cancellation at every position; a second family with message IDs chosen by the application (the ID of an earlier request of the history, or a fresh one): collisions with a still unacknowledged request (the call is refused, the pending exchange goes on), re-use of an ID after the earlier exchange is over, NSTART 1-3; a third family with housekeeping ticks that carry a stale timestamp (CheckExpirations(now - d), d from 0.5 s to beyond the age of every pending request, i.e. stamped before its first transmission). Distinct = distinct history; non-trivial = at least one re-send or one response/ack/reset/cancel event."
 	rng := NewRng(a.seed)
 	emit := func(evs []c06Ev, ack, maxrt, nst int) {
 		txt := runC06History(evs, ack, maxrt, nst)
@@ -823,6 +924,9 @@ func runC06(a runArgs) error {
 			}
 			if ev.Kind == "sendm" {
 				midB = "mid-chosen"
+			}
+			if ev.Kind == "stale" {
+				midB = "stale-tick"
 			}
 		}
 		e.Add(txt, fmt.Sprintf("%d,%d,%d|%s", ack, maxrt, nst, strings.Join(parts, " ")), nt, fmt.Sprintf("len%02d", len(evs)), fmt.Sprintf("nstart%d", nst), fmt.Sprintf("maxrt%d", maxrt), midB)
@@ -860,6 +964,19 @@ func runC06(a runArgs) error {
 		emit(evs, ack, maxrt, nst)
 	}
 	for _, c := range canonC06Mid() {
+		emit(c.evs, c.ack, c.maxrt, c.nst)
+	}
+	// housekeeping ticks with a stale timestamp (older than the present, also older than the first transmission)
+	ns := 30
+	if a.tier == "thorough" {
+		ns = 300
+	}
+	srng := NewRng(a.seed ^ 0x7374616c65)
+	for c := 0; c < ns; c++ {
+		evs, ack, maxrt, nst := genC06StaleHistory(srng)
+		emit(evs, ack, maxrt, nst)
+	}
+	for _, c := range canonC06Stale() {
 		emit(c.evs, c.ack, c.maxrt, c.nst)
 	}
 	return e.Flush(a.out)
